@@ -11,7 +11,7 @@
     exchange <from> <to>                         -> <dump of to>   to.MergeRemoteState(from.LocalState())
     bcast <key> <payload> <pad>                  -> <gossip|oversize|dropped> size=<n> dropped=<n> sends=<n>
     hold <0|1>                                   -> ok        reliable sends block / are released
-    deliver                                      -> gossiped=<n> oversize=<n> <dump of B>   release sends; A.GetBroadcasts and the reliable sends to peer 0 → B.NotifyMsg
+    deliver                                      -> gossiped=<n> oversize=<n> sends=<total> <dump of B>   release sends; A.GetBroadcasts and the reliable sends to peer 0 → B.NotifyMsg
   payload: `bad` | `e:` id=ver,…   dump: key{id=ver,…} sorted, ';'-joined.
 -/
 import Driver.Util
@@ -55,6 +55,7 @@ structure St where
   pendingGossip : List Part := []    -- queued at A's TransmitLimitedQueue, not yet delivered
   pendingOversize : List Part := []  -- reliable sends to peer 0 (= node B) started, applied at `deliver`
   sends : Nat := 0
+  implOversize : Nat := 0            -- broadcasts the implementation put on the oversize path
 
 def St.get (σ : St) (n : String) : States := if n = "0" then σ.a else σ.b
 def St.set (σ : St) (n : String) (x : States) : St := if n = "0" then { σ with a := x } else { σ with b := x }
@@ -175,7 +176,10 @@ def step (σ : St) (op obs : List String) : St × List Msg :=
     let pf : List Msg :=
       (if (path = "gossip") ≠ (sz ≤ threshold) then [Msg.propfail "broadcast_conservation" "wrong-path" s!"size={sz} path={path}"] else [])
       ++ (if path = "dropped" ∧ kvNat [dropped] "dropped" 0 ≠ c0.dropped + 1 then [Msg.propfail "broadcast_conservation" "drop-not-counted" s!"dropped counter {c0.dropped}->{dropped}"] else [])
-    ({ σ with chan := { c2 with gossip := [] }, sends := ns, pendingOversize := tb, pendingGossip := σ.pendingGossip ++ newGossip },
+      ++ (if path = "dropped" ∧ mpath = "oversize" then [Msg.propfail "broadcast_conservation" "dropped-with-room" s!"queue holds {c0.queue.length} of {queueCap}"] else [])
+      ++ (if path = "oversize" ∧ mpath = "dropped" then [Msg.propfail "broadcast_conservation" "over-capacity" s!"queue holds {c0.queue.length} of {queueCap}"] else [])
+    ({ σ with chan := { c2 with gossip := [] }, sends := ns, pendingOversize := tb, pendingGossip := σ.pendingGossip ++ newGossip,
+              implOversize := σ.implOversize + (if path = "oversize" then 1 else 0) },
       expectEq "bcast.path" mpath path ++ expectEq "bcast.dropped" (toString c2.dropped) (toString (kvNat [dropped] "dropped" 0))
         ++ expectEq "bcast.sends" (toString ns) (toString (kvNat [sends] "sends" 0)) ++ pf
         ++ [.tag s!"bcast:{mpath}"] ++ (if sz > 690 ∧ sz ≤ 710 then [.tag "bcast:near-threshold"] else []))
@@ -183,7 +187,7 @@ def step (σ : St) (op obs : List String) : St × List Msg :=
     let held := h = "1"
     let (c2, ns, tb) := pump 500 σ.chan σ.peers held σ.sends σ.pendingOversize
     ({ σ with held, chan := c2, sends := ns, pendingOversize := tb }, [])
-  | ["deliver"], [g, ov, dmp] =>
+  | ["deliver"], [g, ov, snd, dmp] =>
     -- sends are released; everything gossiped or sent reliably so far reaches B through NotifyMsg
     let (c2, ns, tb) := pump 500 σ.chan σ.peers false σ.sends σ.pendingOversize
     let all := tb ++ σ.pendingGossip
@@ -196,6 +200,8 @@ def step (σ : St) (op obs : List String) : St × List Msg :=
           | .entries l, some _, some s => if domKV s l then acc else
               acc ++ [Msg.propfail "broadcast_routed_once" "update-lost" s!"key={p.key} update e:{showKV l} state={showKV s}"]
           | _, _, _ => acc) []
+      ++ (if kvNat [snd] "sends" 0 ≠ σ.implOversize * σ.peers.length then
+            [Msg.propfail "oversize_reaches_every_peer" "peer-skipped" s!"{σ.implOversize} oversize broadcasts, {σ.peers.length} peers, {snd} reliable sends"] else [])
     ({ σ with b := after, implB := cur, pendingGossip := [], pendingOversize := [], chan := c2, sends := ns, held := false },
       expectEq "deliver.gossiped" (toString σ.pendingGossip.length) (toString (kvNat [g] "gossiped" 0))
         ++ expectEq "deliver.oversize" (toString tb.length) (toString (kvNat [ov] "oversize" 0))
